@@ -261,6 +261,42 @@ def run(chk, F, G_):
     ok = len(rets) == 1 and (rets[0].get("e") or {}).get("k") == "member" and rets[0]["e"].get("name") == "is_instantiated"
     chk.ob(rid, "templates|is_instantiated", ok, "visitTemplateBefore is not `return templ.is_instantiated`",
            "%s:%s" % (vt["file"], vt["line"]))
+    # is_instantiated is what makes a template visible to the detectors: whoever puts a process on the system line must
+    # mark its template, on every path that adds the process (fully bound or a process set with free parameters)
+    from ..inline import expanded_fn, path_states
+    adders = [f for f in F.functions.values() if f.get("body") is not None and not (f.get("file") or "").startswith("/usr")
+              and any(c.get("name") == "add_process" and (c.get("fn") or "").endswith("Document::add_process")
+                      for c in calls(f["body"]))]
+    ap = F.fns("UTAP::Document::add_process")
+    if not adders or not ap:
+        raise AnalysisBroken("no caller of Document::add_process found")
+
+    def into_add_process(c):
+        if c.get("name") == "add_process" and (c.get("fn") or "").endswith("Document::add_process"):
+            return ap[0]
+        return False if c.get("fn") and not (c.get("fn") or "").startswith("UTAP::Document") else None
+    for f in adders:
+        x = expanded_fn(f, F, resolve=into_add_process, maxdepth=2)
+
+        def mark(e):
+            bits = []
+            for n in walk(e):
+                if n.get("k") == "call" and n.get("name") in ("emplace_back", "push_back") and \
+                        "processes" in short(n.get("recv")):
+                    bits.append("ADDED")
+                if n.get("k") == "bin" and n.get("op") == "=" and n["lhs"].get("k") == "member" and \
+                        n["lhs"].get("name") == "is_instantiated" and n["rhs"].get("v") is True:
+                    bits.append("MARKED")
+            return bits
+        ft, ex = path_states(x["body"], mark)
+        ends = list(ft) + [st for _, st in ex]
+        if not any("ADDED" in st for st in ends):
+            raise AnalysisBroken("%s: no path appends to Document::processes" % f["q"])
+        chk.ob(rid, "templates|marked-when-instantiated|%s" % f["name"], all("MARKED" in st for st in ends if "ADDED" in st),
+               "%s (with Document::add_process) adds a process to the system on a path that does not set its template's "
+               "is_instantiated flag: FeatureChecker::visitTemplateBefore then skips the template, and whatever it "
+               "contains (floating-point guards, clock rates, local non-broadcast channels) is not seen" % f["q"],
+               "%s:%s" % (f["file"], f["line"]))
     # the flags only ever go from true to false (order independence)
     sets_true = []
     for fn in F.functions.values():
